@@ -724,6 +724,42 @@ def run(run):
     run.sample({"unit": "router_table", "routes": tables[40], "query": ["GET", "/abc/x"],
                 "impl": lib.jsonable(impl_get_route(build_router(tables[40])[0], "GET", "/abc/x"))})
 
+    # ---- 4b. the identification pairs through the front door: one registered route, the variants of a matching path asked
+    # through getRoute AND dispatch (a canonicalisation of the request path or of the method before matching shows here)
+    by_pat = {}
+    for p, q in idp:
+        if "\n" not in q:
+            by_pat.setdefault(p, []).append(q)
+    args, impls, cases = [], [], []
+    for p, vs in by_pat.items():
+        pcs = pieces_of(p)
+        tb = [("GET", p, 1)]
+        rt, box, reg = build_router(tb)
+        qs = [("GET", q, False) for q in vs] + [(m, vs[0], False) for m in ("get", "Get", "GET ", "POST")]
+        res = []
+        for (m, q, lim) in qs:
+            g = impl_get_route(rt, m, q)
+            d = impl_dispatch(rt, box, m, q, lim)
+            res.append((g, d))
+            v = doc_match(pcs, q) if m == "GET" else None
+            exp = [] if v is None else [[1, enc_dict(doc_dict(pcs, v))]]
+            run.evaluations += 1
+            if g != exp:
+                violation("first-match", {"routes": [("GET", p, 1)], "method": m, "path": q, "expected": lib.jsonable(exp),
+                                          "router": lib.jsonable(g), "note": "variant of a matching path"})
+            want = [404] if not exp else [200] + exp[0]
+            if d != want:
+                violation("dispatch-status", {"routes": [("GET", p, 1)], "method": m, "path": q, "limited": False,
+                                              "expected": lib.jsonable(want), "router": lib.jsonable(d)})
+            if exp:
+                run.nt(("ident", p, q))
+        args.append([[[S(m), S(pp), i] for (m, pp, i) in tb], [[S(m), S(q), lim] for (m, q, lim) in qs]])
+        impls.append([reg, [[g, d] for (g, d) in res]])
+        cases.append((tb, len(qs)))
+    mod = M.call_many("router_table", args)
+    run.compare("router_table", cases, impls, [[m[0], [[x[0], x[1]] for x in m[1]]] for m in mod])
+    run.count("identification_front_door_queries", sum(c[1] for c in cases))
+
     # ---- 5. histories: registration after requests were served, Resource classes, the real limiter
     histories(run, violation)
 
